@@ -113,6 +113,82 @@ impl Sm4 {
     }
 }
 
+fn lt(b: u32) -> u32 {
+    b ^ b.rotate_left(2) ^ b.rotate_left(10) ^ b.rotate_left(18) ^ b.rotate_left(24)
+}
+fn lt_key(b: u32) -> u32 {
+    b ^ b.rotate_left(13) ^ b.rotate_left(23)
+}
+
+impl Sm4 {
+    pub fn round_keys(&self) -> [u32; 32] {
+        self.rk
+    }
+    /// Plaintext block for which the input of the round function T in round `round` (0..32) of ENCRYPTION is `tin`;
+    /// the three free state words are `free`. The state of round `round` is fixed and the rounds before it inverted.
+    pub fn block_with_round_input(&self, round: usize, tin: u32, free: [u32; 3]) -> [u8; 16] {
+        self.craft(&self.rk, round, tin, free)
+    }
+    /// same for DECRYPTION (returns a ciphertext block)
+    pub fn ct_block_with_round_input(&self, round: usize, tin: u32, free: [u32; 3]) -> [u8; 16] {
+        let mut r = self.rk;
+        r.reverse();
+        self.craft(&r, round, tin, free)
+    }
+    fn craft(&self, rks: &[u32; 32], round: usize, tin: u32, free: [u32; 3]) -> [u8; 16] {
+        // x[round], x[round+1], x[round+2] free; x[round+3] = tin ^ x[round+1] ^ x[round+2] ^ rk[round]
+        let mut x = [0u32; 36];
+        x[round] = free[0];
+        x[round + 1] = free[1];
+        x[round + 2] = free[2];
+        x[round + 3] = tin ^ free[1] ^ free[2] ^ rks[round];
+        // x[i+4] = x[i] ^ T(x[i+1]^x[i+2]^x[i+3]^rk[i])  =>  x[i] = x[i+4] ^ T(...)
+        for i in (0..round).rev() {
+            x[i] = x[i + 4] ^ lt(tau(x[i + 1] ^ x[i + 2] ^ x[i + 3] ^ rks[i]));
+        }
+        let mut o = [0u8; 16];
+        for i in 0..4 {
+            o[4 * i..4 * i + 4].copy_from_slice(&x[i].to_be_bytes());
+        }
+        o
+    }
+    /// The T input of every round of an encryption (for confirming a crafted block inside the reference).
+    pub fn round_inputs(&self, block: &[u8; 16], decrypt: bool) -> [u32; 32] {
+        let mut rks = self.rk;
+        if decrypt {
+            rks.reverse();
+        }
+        let mut x = [0u32; 36];
+        for i in 0..4 {
+            x[i] = u32::from_be_bytes([block[4 * i], block[4 * i + 1], block[4 * i + 2], block[4 * i + 3]]);
+        }
+        let mut out = [0u32; 32];
+        for i in 0..32 {
+            out[i] = x[i + 1] ^ x[i + 2] ^ x[i + 3] ^ rks[i];
+            x[i + 4] = x[i] ^ lt(tau(out[i]));
+        }
+        out
+    }
+}
+
+/// A 128-bit key whose round key rk[round] equals `value` (the key schedule run backwards from a chosen state).
+pub fn key_with_round_key(round: usize, value: u32, free: [u32; 3]) -> [u8; 16] {
+    // k[i+4] = k[i] ^ T'(k[i+1]^k[i+2]^k[i+3]^ck(i)); rk[i] = k[i+4]
+    let mut k = [0u32; 36];
+    k[round + 4] = value;
+    k[round + 1] = free[0];
+    k[round + 2] = free[1];
+    k[round + 3] = free[2];
+    for i in (0..=round).rev() {
+        k[i] = k[i + 4] ^ lt_key(tau(k[i + 1] ^ k[i + 2] ^ k[i + 3] ^ ck(i as u32)));
+    }
+    let mut o = [0u8; 16];
+    for i in 0..4 {
+        o[4 * i..4 * i + 4].copy_from_slice(&(k[i] ^ FK[i]).to_be_bytes());
+    }
+    o
+}
+
 fn blk(b: &[u8]) -> [u8; 16] {
     let mut a = [0u8; 16];
     a.copy_from_slice(&b[..16]);
